@@ -74,7 +74,7 @@ for f in ['/tmp/seedfirst.txt'] + sorted(glob.glob('/tmp/seedbatch*.txt')) + sor
 rows = []
 for (wt, i), (prop, pkg, change, needs) in sorted(DESC.items(), key=lambda kv: (kv[1][0], kv[0])):
     sd = f'/tmp/{wt}/SEED/{i}'
-    sid = f'{prop}-{wt[3:] if wt.startswith("wt_") else "R2"+wt[4:]}-{i}'
+    sid = f'{prop}-{wt[3:] if wt.startswith("wt_") else "R"+wt[2]+wt[4:]}-{i}'
     out = f'/verif/seeded/{sid}'
     r = results.get((wt, i))
     if not os.path.isdir(sd) and not os.path.isdir(out):
